@@ -20,7 +20,7 @@ pub fn cases(thorough: bool, seed: u64) -> Vec<Params> {
             continue;
         }
         for (k, ids) in [IdSet::Default, IdSet::Wide(seed)].into_iter().enumerate() {
-            let mut subs = subsets(n as usize, t as usize, (n as usize).min(maxs));
+            let mut subs = subsets(n as usize, t as usize, (n as usize).min(maxs).max(t as usize));
             if k == 1 || (!thorough && n >= 4) {
                 // fewer subsets for the second identifier set / larger groups: smallest and largest admissible
                 let lo = subs.iter().map(|s| s.len()).min().unwrap_or(0);
